@@ -298,6 +298,8 @@ def step (cx : Ctx) (ws : List String) : Ctx × String :=
       ({ cx with st := st' }, "lockprobe " ++ dropAllocs out ++ (if cx.ts then " held=1 after=0" else " nolock") ++ dump cx.ts st')
     | none => (cx, "bad-op")
   match ws with
+  | ["obsoff"] => (cx, "ok")     -- harness-only switch: observation through the node chain instead of getat(i)
+  | ["obson"] => (cx, "ok")
   | ["fault", k] => ({ cx with armed := some (k.toNat!, false) }, "ok")
   | ["faultfrom", k] => ({ cx with armed := some (k.toNat!, true) }, "ok")
   | ["end"] => ({ cx with st := .none }, "end live=0 bad=0")
